@@ -158,6 +158,16 @@ func OnNEP11Payment(from interop.Hash160, amount int, token []byte, data any) {
 }
 `
 
+// nnsRefuseSrc: a receiver whose payment callback always fails.
+const nnsRefuseSrc = `package refuse
+
+import "github.com/nspcc-dev/neo-go/pkg/interop"
+
+func OnNEP11Payment(from interop.Hash160, amount int, token []byte, data any) {
+	panic("not accepted")
+}
+`
+
 func NewNNSDriver(mode string) *NNSDriver {
 	d := &NNSDriver{Mode: mode}
 	add := func(o ...nnsOp) { d.ops = append(d.ops, o...) }
@@ -196,6 +206,13 @@ func NewNNSDriver(mode string) *NNSDriver {
 				nnsOp{kind: "setAdmin", name: n, who: "nil", signer: s("U1")},
 			)
 		}
+		add(
+			// a receiver that refuses the payment: the whole transfer fails and nothing changes hands
+			nnsOp{kind: "transfer", name: "aa.com", who: "R", signer: s("U1")},
+			// a name under the short-lived TLD: its own term outlives the TLD's
+			nnsOp{kind: "transfer", name: "aa.org", who: "U2", signer: s("U1")},
+			nnsOp{kind: "renew", name: "aa.org", years: 1, signer: s("U1")},
+		)
 		// the ten-year cap from below and above: a name with nine years left (one more year fits, two do not)
 		// and one with nine years and an hour (not even one fits until an hour has passed)
 		d.pre = []string{"lng.com", "lnh.com"}
@@ -316,6 +333,12 @@ func NewNNSDriver(mode string) *NNSDriver {
 			nnsOp{kind: "del", name: "aa.com", typ: rtA, signer: u},
 			nnsOp{kind: "del", name: "aa.com", typ: rtTXT, signer: u},
 			nnsOp{kind: "del", name: "aa.com", typ: rtSOA, signer: u},
+			// replacing the single CNAME value, and the AAAA one; removal of exactly that type
+			nnsOp{kind: "set", name: "aa.com", typ: rtCNAME, id: 0, data: "cc.com", signer: u},
+			nnsOp{kind: "set", name: "aa.com", typ: rtCNAME, id: 1, data: "cc.com", signer: u},
+			nnsOp{kind: "set", name: "aa.com", typ: rtAAAA, id: 0, data: "2a02:6b8::3", signer: u},
+			nnsOp{kind: "del", name: "aa.com", typ: rtCNAME, signer: u},
+			nnsOp{kind: "del", name: "aa.com", typ: rtAAAA, signer: u},
 			nnsOp{kind: "add", name: "aa.com", typ: rtCNAME, data: "bb.com", signer: u},
 			nnsOp{kind: "add", name: "aa.com", typ: rtCNAME, data: "cc.com", signer: u},
 			nnsOp{kind: "add", name: "x.aa.com", typ: rtTXT, data: "t1", signer: u},
@@ -392,8 +415,10 @@ func (d *NNSDriver) Build() *World {
 	dp := w.Deploy("nnsprobe", c, nil)
 	fc := CompileSource("nnsfwd", nnsFwdSrc, &compiler.Options{Name: "nnsfwd", NoEventsCheck: true, NoPermissionsCheck: true, Permissions: WildPermissions()})
 	df := w.Deploy("nnsfwd", fc, []any{w.Acct("U2").Hash})
+	rc := CompileSource("nnsrefuse", nnsRefuseSrc, &compiler.Options{Name: "nnsrefuse", NoEventsCheck: true, NoPermissionsCheck: true, Permissions: WildPermissions()})
+	dr := w.Deploy("nnsrefuse", rc, nil)
 	d.acc = map[string]util.Uint160{"U1": w.Acct("U1").Hash, "U2": w.Acct("U2").Hash, "D": w.Acct("D").Hash, "S": w.Acct("S").Hash,
-		"P": dp.Hash, "F": df.Hash, "Cm": w.Comm, "Al": w.Alpha}
+		"P": dp.Hash, "F": df.Hash, "R": dr.Hash, "Cm": w.Comm, "Al": w.Alpha}
 	if n%2 == 0 {
 		// exactly half of an even committee is no majority
 		half := MultiSigner(n/2, w.Keys, w.Pubs)
@@ -690,6 +715,8 @@ func (d *NNSDriver) Step(x *Exec, n *Node, i int) StepResult {
 			expHalt = false
 		case !wit[r.owner]:
 			expRet = "i0"
+		case o.who == "R":
+			expHalt = false // the receiver's callback fails, and with it the whole invocation
 		default:
 			selfTransfer = r.owner == to
 			final := to
@@ -926,7 +953,7 @@ func (d *NNSDriver) readback(x *Exec, prev, nn *Node, m, nm *nnsModel, outcome s
 	// ---- NEP-11 accounting ----
 	ts := rd("totalSupply")
 	sum := 0
-	for _, sym := range []string{"U1", "U2", "P", "F", "D", "S"} {
+	for _, sym := range []string{"U1", "U2", "P", "F", "R", "D", "S"} {
 		b := rd("balanceOf", d.acc[sym])
 		want := nm.bal[d.hexOf(sym)]
 		if !Same(b.Ret0(), NI(int64(want))) {
